@@ -24,6 +24,11 @@ LEVEL = "exploration"
 SIZES = [0, 1, 2, 3, 4, 5, 6, 20]
 HARNESS_N = 20      # psyclone.psyad.tl2ad.TEST_ARRAY_DIM_SIZE
 VARIANTS = [0, 1]
+# the driver is this check's own code: no run-time checking or debug info for
+# it (the kernels and PSyAD's harness are compiled with fx.STRICT); the FPE
+# traps must be requested when compiling the main program
+DRV_FLAGS = ["-O0", "-fimplicit-none", "-ffpe-trap=invalid,zero,overflow",
+             "-ffree-line-length-none"]
 
 
 def call_psyad(text, active):
@@ -49,20 +54,49 @@ RES = re.compile(r"RESULT n=(-?\d+) variant=(\d+) nact=(\d+) exact=([TF]) "
                  r"nbad=(\d+) pch_tl=(\d+) pch_ad=(\d+)")
 
 
-def run_driver(wd, n, variant):
-    rc, out, err = fx.run_exe(wd, exe="drv.x", stdin="%d %d\n" % (n, variant),
-                              timeout=60)
-    res = {"rc": rc, "out": out, "err": err, "stage": "tl"}
-    if "TL_DONE" in out:
+def _parse_case(body):
+    res = {"rc": 0, "out": body, "err": "", "stage": "tl"}
+    if "TL_DONE" in body:
         res["stage"] = "ad"
-    if "AD_DONE" in out:
+    if "AD_DONE" in body:
         res["stage"] = "cmp"
-    m = RES.search(out)
+    m = RES.search(body)
     if m:
         res.update(nact=int(m.group(3)), exact=m.group(4) == "T",
                    nbad=int(m.group(5)), pch_tl=int(m.group(6)),
                    pch_ad=int(m.group(7)), stage="done")
     return res
+
+
+def run_cases(wd, cases):
+    """Runs the driver over the list of (n, variant); one process handles
+    consecutive cases and is restarted after the case that aborted it.
+    Returns {(n, variant): result}; 'stage' says how far the case got: tl
+    (aborted inside the TL phase), ad (inside the adjoint phase), cmp, done."""
+    results = {}
+    todo = list(cases)
+    while todo:
+        stdin = "".join("%d %d\n" % c for c in todo)
+        rc, out, err = fx.run_exe(wd, exe="drv.x", stdin=stdin, timeout=120)
+        segs = out.split("BEGIN ")[1:]
+        if not segs:
+            # the process did not even start the first case
+            results[todo[0]] = {"rc": rc, "out": out, "err": err,
+                                "stage": "none"}
+            todo = todo[1:]
+            continue
+        for k, seg in enumerate(segs):
+            head, _, body = seg.partition("\n")
+            res = _parse_case(body)
+            if res["stage"] != "done":
+                res["rc"], res["err"] = rc, err
+            results[todo[k]] = res
+        todo = todo[len(segs):]
+    return results
+
+
+def run_driver(wd, n, variant):
+    return run_cases(wd, [(n, variant)])[(n, variant)]
 
 
 def confirm_in_quad(spec, text, ad, wd, n, v, part):
@@ -75,8 +109,11 @@ def confirm_in_quad(spec, text, ad, wd, n, v, part):
         shutil.rmtree(qd, ignore_errors=True)
         ok, err = fx.compile_f(
             qd, [("tl_k.f90", cg.to_quad(text)),
-                 ("adj_k.f90", cg.to_quad(ad)),
-                 ("drv.f90", cg.driver_text(spec, rk=16))], exe="drv.x")
+                 ("adj_k.f90", cg.to_quad(ad))], compile_only=True)
+        if ok:
+            ok, err = fx.compile_f(
+                qd, [("drv.f90", cg.driver_text(spec, rk=16))], exe="drv.x",
+                flags=DRV_FLAGS, extra=["tl_k.o", "adj_k.o"])
         if not ok:
             part.count("real16_recheck_unavailable")
             part.inconclusive("C19 real(16) re-check did not compile: "
@@ -160,7 +197,8 @@ def evaluate(spec, feats, part, wd):
                 str(err).strip()[-400:], text)))
         return res
     ok, err = fx.compile_f(wd, [("drv.f90", cg.driver_text(spec))],
-                           exe="drv.x", extra=["tl_k.o", "adj_k.o"])
+                           exe="drv.x", flags=DRV_FLAGS,
+                           extra=["tl_k.o", "adj_k.o"])
     if not ok:
         part.count("driver_did_not_compile")
         part.inconclusive("C19 driver did not compile: " + str(err)[-300:])
@@ -174,10 +212,14 @@ def evaluate(spec, feats, part, wd):
     # depends on it
     variants = VARIANTS if any(s[0] == "if" for s in cg.walk(spec["body"])) \
         else VARIANTS[:1]
+    runs = run_cases(wd, [(n, v) for n in SIZES for v in variants])
     for n in SIZES:
         haz = cg.hazards(spec, n)
         for v in variants:
-            r = run_driver(wd, n, v)
+            r = runs[(n, v)]
+            if r["stage"] == "none":
+                part.count("driver_did_not_start")
+                continue
             if r["stage"] == "tl":
                 # the ORIGINAL kernel is out of bounds / traps: invalid input
                 part.count("inputs_skipped_tl_kernel_invalid")
